@@ -310,7 +310,7 @@ def plan(tier, seed, workdir):
     body += hgen.harness('callsoup', 't1: int, t2: int, t3: int, t4: int, n: int', ['0 <= t1 < 6', '0 <= t2 < 6', '0 <= t3 < 6', '0 <= t4 < 6', '1 <= n <= 4'],
                          core_call='core_callsoup(t1, t2, t3, t4, n)')
     path = hgen.write_module(workdir, 'c02_callsoup', body, stub=False)
-    hgen.ch_tasks(p, path, 'callsoup', timeout * 2, twin_timeout=60, est=120, family='E1 call punctuation soup (<= 5 tokens)',
+    hgen.ch_tasks(p, path, 'callsoup', 100 if tier == 'quick' else timeout, twin_timeout=60, est=100, family='E1 call punctuation soup (<= 5 tokens)',
                   enum={'t1': list(range(6)), 't2': list(range(6)), 't3': list(range(6)), 't4': list(range(6)), 'n': [1, 2, 3, 4]})
     p.rule = ('1 z3 lemma over the live precedence table (196 pairs, symbolic operators); CrossHair conditions sharded by first operator / first '
               'token: all operator chains up to k, one operand of each chain replaced by each of 8 forms at each position, with and without blanks')
